@@ -43,6 +43,19 @@ Two further dimensions of the enumeration:
           more after T is complete; T is then judged as always, and the
           places its descriptors report must not have moved.  All other cases
           use a fresh class with a single instance.
+ bit fields  a second, independent family: 2..3 bit-field variables
+          (pos, bits) declared next to each other, every non-overlapping
+          layout of one byte with bits 1..7, for every variable kind that
+          takes a bit-field format: xdp.PacketVar and the TerminalVar-linked
+          ebpfcat.ebpfcat.PacketVar (single bits only) - all fields share ONE
+          packet byte -, LocalVar and array-map variables (a byte of their
+          own each, adjacent), with byte neighbours below and above.  Every
+          field is written once with every value of: constants in range, too
+          wide and negative, True/False, a 64 bit register, other variables
+          (wider than the field), another field of the family, an
+          expression, a comparison; on previous byte values 0x00/0xff/0xa5.
+          Judged per BIT: every bit of every other declared variable keeps
+          its value (what the written field itself holds is only counted).
 """
 import contextlib
 import itertools
@@ -72,7 +85,12 @@ RULE = ("programs = shape (main locals sequence, Dict position, subprogram "
         "sentinel sets and judged in every context (main, inside each "
         "subprogram instance); a case is non-trivial when the statement ran to "
         "its end and changed at least one byte of interpreter memory; "
-        "distinct = distinct (shape, statement, history)")
+        "distinct = distinct (shape, statement, history); second family: "
+        "kind of variable (packet, TerminalVar, local, array map) x layout "
+        "of 2..3 bit fields in a byte x written field x value (constants in "
+        "range / too wide / negative, booleans, register, variables, other "
+        "field, expression, comparison) x previous byte value, judged per "
+        "bit")
 
 K_MAIN = ["B", "h", "I", "q", (3, 1), (1, 3)]
 K_SUB = ["B", "I", "q", "h", (3, 1)]
@@ -803,6 +821,347 @@ def shape_from(j):
             tuple(j["insts"]))
 
 
+# ------------------------------------------------------------ bit fields
+# Families of 2..3 bit-field variables.  xdp.PacketVar and the
+# ebpfcat.ebpfcat.PacketVar behind a TerminalVar take the address from the
+# declaration: all fields of a family share ONE byte there.  LocalVar and
+# array-map bit fields are given a byte of their own each (adjacent bytes).
+BF_KINDS = ("pkt", "tvar", "local", "arr")
+BF_ADDR = {"pkt": 14, "tvar": 19}     # tvar: 14 + pdo_assign 3 + position 2
+BF_SRC = 0x81c3a5e7                   # LocalVar 'I' src
+BF_GSRC = 0xb6d9                      # array-map 'H' gsrc
+BF_REGS = (0xf123456789abcdb7, 0xffffffffffffffff)
+BF_KEEP = 1     # stored violations per signature and work item
+
+
+def bf_layouts(single=False):
+    """all sets of 2..3 non-overlapping fields (pos, bits) in one byte,
+    bits 1..7 (single: bits == 1 only)"""
+    ivs = [(p, b) for p in range(8) for b in range(1, 2 if single else 8)
+           if p + b <= 8]
+    out = []
+    for n in (2, 3):
+        for c in itertools.combinations(ivs, n):
+            if all(c[i][0] + c[i][1] <= c[i + 1][0] for i in range(n - 1)):
+                out.append(c)
+    return out
+
+
+def bf_values(layout, k, quick, seed):
+    bits = layout[k][1]
+    top = (1 << bits) - 1
+    consts = [0, top, 0x55 & top, 1 << bits, 0xff, -1, -2,
+              -(1 << (bits - 1))]
+    if not quick:
+        consts += [1, top + 2, 0x80, 0x1ff, -(1 << bits), -(1 << bits) - 1,
+                   -128, -129, 1 << 31, (1 << 32) + 1, -(1 << 31)]
+    if seed:
+        consts += [(37 * seed + 11) & 0xff, -((29 * seed + 3) & 0xff) - 1]
+    vals = []
+    for c in consts:
+        if ("c", c) not in vals:
+            vals.append(("c", c))
+    vals += [("b", True), ("b", False), ("reg", 0), ("var", "src"),
+             ("var", "nhi"), ("expr",), ("cmp",)]
+    vals += [("field", j) for j in range(len(layout)) if j != k]
+    if not quick:
+        vals += [("reg", 1), ("var", "gsrc"), ("var", "nlo"), ("neg",)]
+    return vals
+
+
+def bf_prevs(seed):
+    return [0x00, 0xff, 0xa5] + ([(0x3c + 0x4f * seed) & 0xff] if seed
+                                 else [])
+
+
+class BitProg:
+    """family `layout` of bit fields of one kind, neighbours nlo/nhi ('B')
+    of the same kind below/above, one statement: field k = value"""
+
+    def __init__(self, kind, layout, k, val):
+        self.kind, self.layout, self.k, self.val = kind, layout, k, val
+        self.fake = FakeMaps()
+        self.start = self.end = None
+        n = len(layout)
+        attrs = {"minimumPacketSize": GUARD}
+        amap = attrs["amap"] = ArrayMap()
+        attrs["src"] = LocalVar("I")
+        attrs["gsrc"] = amap.globalVar("H")
+        names = ["nlo"] + [f"f{j}" for j in range(n)] + ["nhi"]
+        fmts = ["B"] + list(layout) + ["B"]
+        self.dev = None
+        if kind in ("pkt", "tvar"):
+            a = BF_ADDR[kind]
+            attrs["nlo"] = PacketVar(a - 1, "B")
+            attrs["nhi"] = PacketVar(a + 1, "B")
+            if kind == "pkt":
+                for j, f in enumerate(layout):
+                    attrs[f"f{j}"] = PacketVar(a, f)
+        elif kind == "local":
+            for nm, f in zip(names, fmts):
+                attrs[nm] = LocalVar(f)
+        elif kind == "arr":
+            for nm, f in zip(names, fmts):
+                attrs[nm] = amap.globalVar(f)
+        else:
+            raise core.Internal(f"kind {kind}")
+        prog = self
+
+        def program(e):
+            prog.emit(e)
+        attrs["program"] = program
+        cls = self.cls = type("C04B", (XDP,), attrs)
+        with self.fake.bound():
+            e = self.e = cls(license="GPL")
+            if kind == "tvar":
+                from ebpfcat.ebpfcat import PacketVar as ECPacketVar
+                from ebpfcat.ebpfcat import TerminalVar
+                import types
+                term = object()
+                Dev = type("Dev", (), {f"f{j}": TerminalVar()
+                                       for j in range(n)})
+                dev = self.dev = Dev()
+                dev.ebpf = e
+                dev.sync_group = types.SimpleNamespace(
+                    current_data=None, pdo_assign={term: {0: 3}})
+                for j, (pos, bits) in enumerate(layout):
+                    setattr(dev, f"f{j}", ECPacketVar(term, 0, 2, pos))
+            self.collect()
+            self.error = None
+            try:
+                self.code = e.assemble()
+            except core.Internal:
+                raise
+            except Exception as ex:
+                if self.start is None:
+                    raise core.Internal(f"before the statement: {ex!r}")
+                self.error = type(ex).__name__
+                return
+        if self.end is None:
+            raise core.Internal("statement not emitted")
+        self.insns = bpfvm.decode(self.code)
+
+    def holder(self, name):
+        return self.dev if self.dev is not None and name[0] == "f" \
+            and name[1:].isdigit() else self.e
+
+    def collect(self):
+        """-> self.vars: name -> (region, offset, size, mask)"""
+        e, kind = self.e, self.kind
+        vs = {}
+
+        def where(name):
+            for c in type(e).__mro__:
+                if name in c.__dict__:
+                    return c.__dict__[name].fmt_addr(e)[1]
+            raise core.Internal(name)
+        vs["src"] = ("stack", 512 + where("src"), 4, 0xff)
+        vs["gsrc"] = ("arr", where("gsrc"), 2, 0xff)
+        names = ["nlo"] + [f"f{j}" for j in range(len(self.layout))] \
+            + ["nhi"]
+        for i, nm in enumerate(names):
+            f = self.layout[i - 1] if nm[0] == "f" else None
+            mask = 0xff if f is None else ((1 << f[1]) - 1) << f[0]
+            if kind in ("pkt", "tvar"):
+                off = BF_ADDR[kind] + (-1 if nm == "nlo" else
+                                       1 if nm == "nhi" else 0)
+                vs[nm] = ("pkt", off, 1, mask)
+            elif kind == "local":
+                vs[nm] = ("stack", 512 + where(nm), 1, mask)
+            else:
+                vs[nm] = ("arr", where(nm), 1, mask)
+        self.vars = vs
+
+    def emit(self, e):
+        val = self.val
+        if val[0] == "reg":
+            v = BF_REGS[val[1]]
+            e.opcodes.append(Instruction(Raw(0x18), 2, 0, 0,
+                                         v & 0xffffffff))
+            e.opcodes.append(Instruction(Raw(0), 0, 0, 0, v >> 32))
+            e.owners.add(2)
+        self.start = len(e.opcodes)
+        h = self.holder(f"f{self.k}")
+        setattr(h, f"f{self.k}", self.value(e))
+        self.end = len(e.opcodes)
+
+    def value(self, e):
+        val = self.val
+        if val[0] in ("c", "b"):
+            return val[1]
+        if val[0] == "reg":
+            return e.r2
+        if val[0] == "var":
+            return getattr(e, val[1])
+        if val[0] == "field":
+            return getattr(self.holder(f"f{val[1]}"), f"f{val[1]}")
+        if val[0] == "expr":
+            return e.src + 0x1234
+        if val[0] == "neg":
+            return -e.src
+        if val[0] == "cmp":
+            return e.src > 3
+        raise core.Internal(f"value {val}")
+
+    def run(self, prev):
+        """-> status, before, after, steps"""
+        arr = self.fake.kernel.maps[self.fake.fds[0]]
+        arr.area[:] = bytes((0x90 + 7 * i) & 0xff
+                            for i in range(len(arr.area)))
+        pkt = bytearray((0x40 + 3 * i) & 0xff for i in range(PKTLEN))
+        vm = bpfvm.VM(self.fake.kernel, self.insns, pkt)
+        try:
+            while vm.pc != self.start:
+                if vm.done:
+                    return "exit before the statement", None, None, vm.steps
+                vm.step()
+        except bpfvm.Trap as t:
+            return "trap before the statement: " + str(t), None, None, \
+                vm.steps
+        mem = {"stack": vm.stack, "pkt": pkt, "arr": arr.area}
+        for nm, (region, off, size, mask) in self.vars.items():
+            x = {"src": BF_SRC, "gsrc": BF_GSRC, "nlo": prev ^ 0x5a,
+                 "nhi": prev ^ 0xc3}.get(nm, prev)
+            mem[region][off:off + size] = x.to_bytes(size, "little")
+            if region == "stack":
+                vm.stack_init[off:off + size] = b"\1" * size
+
+        def snap():
+            return {r: bytes(b) for r, b in mem.items()}
+        before = snap()
+        status = "end"
+        try:
+            while vm.pc != self.end:
+                if vm.done:
+                    status = "exit"
+                    break
+                vm.step()
+        except bpfvm.Trap as t:
+            status = "trap: " + str(t)
+        return status, before, snap(), vm.steps
+
+
+def bf_valkind(layout, k, val):
+    bits = layout[k][1]
+    if val[0] == "c":
+        c = val[1]
+        return "const:" + ("negative" if c < 0 else "in range"
+                           if c < (1 << bits) else "too wide")
+    return {"b": "bool", "var": "variable", "field": "other field",
+            "reg": "register", "expr": "expression", "neg": "expression",
+            "cmp": "comparison"}[val[0]]
+
+
+def bf_run_case(kind, layout, k, val, prevs, res, caseno):
+    cj = dict(family="bits", kind=kind, layout=[list(f) for f in layout],
+              written=k, value=list(val))
+    p = BitProg(kind, layout, k, val)
+    vk = bf_valkind(layout, k, val)
+    width = "1 bit" if layout[k][1] == 1 else "several bits"
+    if p.error:
+        res.count("rejected_by_generator")
+        res.count("bits_rejected_by_generator")
+        res.outcomes.add(("bits", "rejected", vk, width, p.error))
+        return
+    res.count("programs")
+    res.count("programs_bit_field_family")
+    pos, bits = layout[k]
+    tname = f"f{k}"
+    tregion, toff, _, tmask = p.vars[tname]
+    seen = set()
+    for prev in prevs:
+        status, before, after, steps = p.run(prev)
+        res.count("evaluations")
+        res.count("transitions", steps)
+        if before is None:
+            res.count("not_reached")
+            res.outcomes.add(("bits", status[:60]))
+            continue
+        if status.startswith("trap"):
+            res.count("trapped")
+            res.outcomes.add(("bits", "trap", kind, vk, status[6:40]))
+            continue
+        changed = {}
+        for r in before:
+            b, a = before[r], after[r]
+            for i in range(len(b)):
+                if b[i] != a[i]:
+                    changed[(r, i)] = b[i] ^ a[i]
+        hit = []
+        for nm, (region, off, size, mask) in p.vars.items():
+            if nm == tname:
+                continue
+            x = [changed.get((region, off + i), 0) & mask
+                 for i in range(size)]
+            if any(x):
+                hit.append(
+                    f"{nm} ({region} byte {off}, bits {mask:#04x}): "
+                    f"{before[region][off:off + size].hex()} -> "
+                    f"{after[region][off:off + size].hex()}")
+        if val[0] in ("c", "b") and status == "end":
+            got = (after[tregion][toff] & tmask) >> pos
+            res.count("bits_constant_stored_reduced_to_width"
+                      if got == int(val[1]) & (tmask >> pos)
+                      else "bits_constant_stored_otherwise")
+        res.outcomes.add(("bits", status, kind, vk, width,
+                          min(len(changed), 3)))
+        if status == "end" and changed:
+            res.nontrivial.add(caseno)
+        if hit and "hit" not in seen:
+            seen.add("hit")
+            note = "bit-field write changed another declared variable"
+            sig = core.digest(["bits", kind, vk, width, note])
+            n = _stored[sig] = _stored.get(sig, 0) + 1
+            if n > BF_KEEP:
+                res.count("violations_not_stored")
+                continue
+            res.violation(
+                dict(cj, previous_byte=prev, context="main",
+                     observer="dynamic"),
+                f"only {tname} = bits {pos}..{pos + bits - 1} of {tregion} "
+                f"byte {toff} changes (the other declared variables: "
+                + ", ".join(f"{nm} bits {v[3]:#04x} of {v[0]} byte {v[1]}"
+                            for nm, v in p.vars.items()
+                            if nm != tname and nm[0] in "fn") + ")",
+                "also changed: " + "; ".join(hit), sig=sig, note=note)
+    return p
+
+
+def bf_items(ctx):
+    """-> [(kind, layouts)] work items"""
+    quick = ctx.quick
+    allof = bf_layouts()
+    pairs = [lay for lay in allof if len(lay) == 2]
+    out = []
+    for kind in BF_KINDS:
+        if kind == "tvar":
+            lays = bf_layouts(single=True)
+        elif kind == "pkt":
+            lays = allof
+        else:
+            lays = pairs if quick else allof
+        size = 48
+        out += [(kind, tuple(lays[i:i + size]))
+                for i in range(0, len(lays), size)]
+    return out
+
+
+def bf_cases(kind, layouts, quick, seed):
+    for layout in layouts:
+        for k in range(len(layout)):
+            for val in bf_values(layout, k, quick, seed):
+                yield layout, k, val
+
+
+def bf_work(item, res):
+    (_, kind, layouts, quick, seed), base = item
+    _stored.clear()
+    prevs = bf_prevs(seed)
+    for i, (layout, k, val) in enumerate(bf_cases(kind, layouts, quick,
+                                                  seed)):
+        bf_run_case(kind, layout, k, val, prevs, res, base + i)
+
+
 # ------------------------------------------------------------ alphabets
 def statements(shape, quick):
     main, dictpos, subcls, insts = shape
@@ -963,6 +1322,8 @@ def shapes(ctx):
 
 
 def work(item, res):
+    if item[0][0] == "bits":
+        return bf_work(item, res)
     (shape, quick), base = item
     _stored.clear()
     for i, (st, hist) in enumerate(cases(shape, quick)):
@@ -975,11 +1336,22 @@ def run(ctx):
     for sh in shapes(ctx):
         items.append(((sh, ctx.quick), base))
         base += len(cases(sh, ctx.quick))
+    nshapes = len(items)
+    bf_n = bf_items_n = 0
+    for kind, layouts in bf_items(ctx):
+        # (ahead of the shapes: the larger items must not end the queue)
+        items.insert(bf_items_n, (("bits", kind, layouts, ctx.quick,
+                                   ctx.seed), base))
+        bf_items_n += 1
+        n = sum(1 for _ in bf_cases(kind, layouts, ctx.quick, ctx.seed))
+        base += n
+        bf_n += n
     res = core.pmap(ctx, work, items, chunk=2)
     res.cov["states"] = len(res.nontrivial)
     res.cov["traces_validated_against_impl"] = res.cov.get("evaluations", 0)
     res.cov["alphabet"] = dict(
-        shapes=len(items), programs_enumerated=base,
+        shapes=nshapes, programs_enumerated=base,
+        bit_field_family_programs=bf_n,
         main_kinds=[fmtname(k) for k in K_MAIN],
         sub_kinds=[fmtname(k) for k in K_SUB],
         lookup_block=[list(v) for v in (
@@ -987,13 +1359,33 @@ def run(ctx):
             else LOOKUP_THOROUGH + LOOKUP_THOROUGH_HASHY)],
         histories=["-".join(h) for h in (HIST_QUICK if ctx.quick
                                          else HIST_THOROUGH)],
-        history_instances=HISTS)
+        history_instances=HISTS,
+        bit_field_kinds=list(BF_KINDS),
+        bit_field_layouts=dict(
+            pkt=len(bf_layouts()), tvar=len(bf_layouts(single=True)),
+            local_arr=len([x for x in bf_layouts()
+                           if not ctx.quick or len(x) == 2])),
+        bit_field_previous_bytes=bf_prevs(ctx.seed))
     res.sample(dict(shape=shape_json((("q",), "none", (("I",),), (0,))),
                     stmt=["hget", ["m", 0], ["hv"]], hist=None))
     res.sample(dict(shape=shape_json((("q",), "last", (("I",),), (0,))),
                     stmt=["in", "body", ["hset", ["hw"], ["hv"]], "vq",
                           "set"], hist=["S", "pre"]))
+    res.sample(dict(family="bits", kind="pkt", layout=[[0, 3], [3, 4], [7, 1]],
+                    written=1, value=["c", -1], previous_byte=0,
+                    context="main", observer="dynamic"))
     res.assumptions += [
+        "bit-field families: only the frame condition is judged (every bit "
+        "of every other declared variable - the other fields sharing the "
+        "byte, the neighbouring bytes, an unrelated local and array-map "
+        "variable - keeps its value); what the written field holds "
+        "afterwards (value reduced to the width; any non-zero constant sets "
+        "a single bit) is counted, not judged (C01/C02).  Bits of the byte "
+        "that belong to no declared field may change.  A value the "
+        "generator rejects (a comparison for a field of several bits) is "
+        "counted.  The TerminalVar kind uses the real TerminalVar and "
+        "ebpfcat.ebpfcat.PacketVar descriptors on a stub device (ebpf, "
+        "sync_group.current_data None, pdo_assign fixed)",
         "frames of different subprogram instances overlay each other by "
         "construction (pinned by the suite's test_local_subprog): subprogram "
         "locals are scratch, live only inside that instance's program(); a "
@@ -1029,6 +1421,18 @@ def run(ctx):
 def replay(ctx, rep):
     res = core.Result()
     c = rep["case"]
+    if c.get("family") == "bits":
+        _stored.clear()
+        layout = tuple(tuple(f) for f in c["layout"])
+        val = tuple(c["value"])
+        prevs = bf_prevs(ctx.seed)
+        if c["previous_byte"] not in prevs:
+            prevs.append(c["previous_byte"])
+        p = bf_run_case(c["kind"], layout, c["written"], val, prevs, res, 0)
+        if p is not None:
+            print("variables (region, byte, size, bits):", p.vars)
+            print(bpfvm.disasm(p.insns[p.start:p.end]))
+        return res.violations
     shape = shape_from(c["shape"])
 
     def tup(x):
